@@ -216,6 +216,11 @@ def catalogue():
     add('vecsym', lambda v: A.vecsym(v) * np.arange(1., 10.).reshape(3, 3), [((6,), 'R')], ['linalg'])
     add('tile:int', lambda x: A.tile(x, 2) * np.arange(1., 7.), [(V, 'R')], ['linalg', 'tile'])
     add('tile:tuple', lambda X: A.tile(X, (2, 1)) * 1.5, [((2, 3), 'R')], ['linalg', 'tile'])
+    add('tile:matrix_int', lambda X: A.tile(X, 2) * 1.5, [((2, 3), 'R')], ['linalg', 'tile'])
+    add('tile:matrix_short_tuple', lambda X: A.tile(X, (3,)) * 1.5, [((2, 3), 'R')], ['linalg', 'tile'])
+    add('tile:rank_raising', lambda x: A.tile(x, (2, 2)) * 1.5, [(V, 'R')], ['linalg', 'tile'])
+    add('tile:rank3_int', lambda X: A.tile(X, 2) * 1.5, [((2, 1, 2), 'R')], ['linalg', 'tile'])
+    add('tile:scalar', lambda x: A.tile(x, 3) * np.arange(1., 4.), [(S, 'R')], ['linalg', 'tile'])
     add('triu', lambda X: A.triu(X), [(M, 'R')], ['linalg', 'nopb'])
     # --- raw matrix inputs whose structure decisions (pivot rows) differ from call to call, i.e. between directions
     add('det:raw', lambda X: A.det(X), [(M, 'wcperm')], ['linalg', 'pivot', 'structure'])
@@ -250,6 +255,11 @@ def catalogue():
     add('fft:axis0', lambda X: A.real(A.fft.fft(X, axis=0)), [((3, 2), 'R')], ['fft', 'kwargs'])
     add('ifft:axis0', lambda X: A.imag(A.fft.ifft(X, axis=0)) + A.real(A.fft.ifft(X, axis=0)), [((3, 2), 'R')], ['fft', 'kwargs'])
     add('conjugate', lambda x: A.real(A.conjugate(A.fft.fft(x)) * A.fft.fft(x)), [((4,), 'R')], ['fft'])
+    add('fft:matrix_default_axis', lambda X: A.real(A.fft.fft(X)) - A.imag(A.fft.fft(X)), [((3, 2), 'R')], ['fft'])
+    add('fft:axis-1', lambda X: A.real(A.fft.fft(X, axis=-1)) + A.imag(A.fft.fft(X, axis=-1)), [((3, 4), 'R')], ['fft', 'kwargs'])
+    add('fft:axis1', lambda X: A.real(A.fft.fft(X, axis=1)), [((2, 3), 'R')], ['fft', 'kwargs'])
+    add('ifft:axis-2', lambda X: A.real(A.fft.ifft(X, axis=-2)) + A.imag(A.fft.ifft(X, axis=-2)), [((3, 2), 'R')], ['fft', 'kwargs'])
+    add('fft:axis1_of_3d', lambda X: A.imag(A.fft.fft(X, axis=1)), [((2, 3, 2), 'R')], ['fft', 'kwargs'])
     # --- zeros / ones with traced dtype
     add('ones_like', lambda x: A.ones_like(x) * x + A.zeros_like(x), [(V, 'R')], ['construct', 'refused'])
     add('ones_shape', lambda x: A.ones((2, 3), dtype=x) * x, [(V, 'R')], ['construct', 'refused'])
